@@ -202,6 +202,15 @@ fn count<'a>(args: FunctionArgs<'_, 'a>) -> Option<LhsValue<'a>> {
     }
 }
 
+/// Bool in, Bytes out: the argument may be a whole comparison, the call may stand left of `in $list`.
+fn tagb<'a>(args: FunctionArgs<'_, 'a>) -> Option<LhsValue<'a>> {
+    match first_ok(args)? {
+        LhsValue::Bool(true) => Some(LhsValue::Bytes(b"T".to_vec().into())),
+        LhsValue::Bool(false) => Some(LhsValue::Bytes(b"F".to_vec().into())),
+        _ => None,
+    }
+}
+
 fn join2<'a>(args: FunctionArgs<'_, 'a>) -> Option<LhsValue<'a>> {
     let a = args.next()?;
     let b = args.next();
@@ -375,6 +384,7 @@ pub fn add_lib_fn(b: &mut SchemeBuilder, name: &str, lib: &str) -> Option<()> {
         "echo_ab" => b.add_function(name, simple(vec![(Field, ab)], vec![], ab, first_ok)),
         "echo_mb" => b.add_function(name, simple(vec![(Field, mb)], vec![], mb, first_ok)),
         "echo_b" => b.add_function(name, simple(vec![(Field, Type::Bool)], vec![], Type::Bool, first_ok)),
+        "tagb" => b.add_function(name, simple(vec![(Field, Type::Bool)], vec![], Type::Bytes, tagb)),
         "count" => b.add_function(
             name,
             simple(vec![(Field, Type::Array(Type::Bytes.into()))], vec![], Type::Int, count),
